@@ -38,6 +38,12 @@ def create_scipy_stats_rv_continuous_from_TimeFluxProfile(
             'The profile argument must be an instance of TimeFluxProfile! '
             f'Its current type is {classname(profile)}!')
 
+    # The random variate describes the profile as it is now. Work on a copy, so
+    # that a later change of the profile's parameters cannot make the
+    # normalization and the support calculated here inconsistent with the
+    # profile function.
+    profile = profile.copy()
+
     norm = 0
     tot_integral = profile.get_total_integral()
     if tot_integral != 0:
